@@ -244,18 +244,20 @@ IMPL_INVS = ('UniqueIds EofOnlyOnOk NoCancelAfterSuccess ResetNotBeforeTrailer R
 
 
 def impl(name, unaries=(), streams=(), workers=1, maxc=1, maxs=1, without=None, cancel=False, readfail=False,
-         stop=False, early=True, expect=None, tiers=None, tlc_workers=8):
+         stop=False, early=True, expect=None, tiers=None, tlc_workers=8, advc=0, advs=0):
     """a configuration of GoatImpl.tla; `without` names a repaired defect to re-open (the model must then fail)"""
     fixes = [f for f in ALL_FIXES if f != without]
     sset = lambda xs: '{' + ', '.join('"%s"' % x for x in xs) + '}'
     b = lambda v: 'TRUE' if v else 'FALSE'
     cfg = ('SPECIFICATION Spec\nCONSTANTS\n  Unaries = %s\n  Streams = %s\n  NWorkers = %d\n  MaxC = %d\n  MaxS = %d\n'
-           '  Fixes = %s\n  EnvCancel = %s\n  EnvReadFail = %s\n  EnvStop = %s\n  EarlyReturn = %s\nINVARIANTS %s\n'
-           % (sset(unaries), sset(streams), workers, maxc, maxs, sset(fixes), b(cancel), b(readfail), b(stop), b(early), IMPL_INVS))
+           '  Fixes = %s\n  EnvCancel = %s\n  EnvReadFail = %s\n  EnvStop = %s\n  EarlyReturn = %s\n'
+           '  AdvClient = %d\n  AdvServer = %d\nINVARIANTS %s\n'
+           % (sset(unaries), sset(streams), workers, maxc, maxs, sset(fixes), b(cancel), b(readfail), b(stop), b(early),
+              advc, advs, IMPL_INVS))
     d = dict(name='GoatImpl ' + name, spec='GoatImpl.tla', cfg=cfg, workers=tlc_workers, heap='12g', timeout=3000,
              constants='unary calls %s, streams %s, %d worker(s), <=%d client / <=%d handler messages per stream, '
-                       'environment: cancel=%s read-failure=%s stop=%s early-return=%s; %s; deadlock checking on'
-                       % (sset(unaries), sset(streams), workers, maxc, maxs, b(cancel), b(readfail), b(stop), b(early),
+                       'environment: cancel=%s read-failure=%s stop=%s early-return=%s adversarial envelopes to server=%d to client=%d; %s; deadlock checking on'
+                       % (sset(unaries), sset(streams), workers, maxc, maxs, b(cancel), b(readfail), b(stop), b(early), advc, advs,
                           'all repaired defects present' if not without else 'defect %s re-opened' % without))
     if expect:
         d['expect_violation'] = expect
